@@ -103,5 +103,168 @@ theorem c04_monitor_model (ms : List Machine) (fp fb : F64) (t0 : Int) (rng : σ
   exact c04_go_model ρ (modelTrace ρ ms fp fb t0 rng h) h 1 (Fw.init ρ ms fp fb t0 rng)
     (machines_run (init_run ρ ms fp fb t0 rng)) (Inv04.init ρ ms fp fb t0 rng)
 
+/-! ## C01 -/
+
+/-- the body of `C01.monitor.go` for one call, with the recursive call abstracted as `k` -/
+def c01Step (t : FwTrace) (i : Nat) (seen : List CallRec) (c : CallRec) (k : Option String) : Option String :=
+  match c.res with
+  | .panic cls =>
+    let sp := C01.span t.t0 (seen ++ [c])
+    let spanClass := if sp ≥ 2 ^ 60 * 1000000000 then "span>=2^60s" else "span<2^60s"
+    some s!"call {i}: panic {cls} {spanClass}"
+  | _ =>
+    if C01.steps c.log > C01.workBound c.events.length t.machines.length then
+      some s!"call {i}: {C01.steps c.log} transition steps exceed the bound {C01.workBound c.events.length t.machines.length}"
+    else k
+
+theorem c01_go_nil (t : FwTrace) (i : Nat) (seen : List CallRec) : C01.monitor.go t i seen [] = none := by
+  rw [C01.monitor.go]
+
+theorem c01_go_cons (t : FwTrace) (i : Nat) (seen : List CallRec) (c : CallRec) (cs : List CallRec) :
+    C01.monitor.go t i seen (c :: cs) = c01Step t i seen c (C01.monitor.go t (i + 1) (seen ++ [c]) cs) := by
+  rw [C01.monitor.go]
+  rfl
+
+theorem c01Step_ok (t : FwTrace) (i : Nat) (seen : List CallRec) (c : CallRec) (k : Option String)
+    (hres : c.res = .ok) (hw : C01.steps c.log ≤ C01.workBound c.events.length t.machines.length) :
+    c01Step t i seen c k = k := by
+  unfold c01Step
+  rw [hres]
+  simp only []
+  rw [if_neg (by omega)]
+
+theorem c01Step_fault (t : FwTrace) (i : Nat) (seen : List CallRec) (c : CallRec) (k : Option String)
+    (f : Fault) (hres : c.res = resOf (some f)) : c01Step t i seen c k ≠ none := by
+  unfold c01Step
+  rw [hres]
+  cases f <;> simp [resOf]
+
+/-- the monitor's step count of a log is the weight the work-bound lemma counts -/
+theorem steps_eq (l : List LogEntry) : C01.steps l.reverse = wsum μSteps l := by
+  unfold C01.steps
+  rw [List.countP_reverse]
+  induction l with
+  | nil => rfl
+  | cons e l ih =>
+    rw [wsum_cons, List.countP_cons, ih]
+    cases e <;> simp [μSteps, Nat.add_comm]
+
+/-- **work bound in the monitor's terms**: the log of every call of the model, started from an empty
+    log, holds at most `workBound events machines` transition entries -/
+theorem work_call (s : Fw σ) (hI : Inv04 s) (c : Call) :
+    C01.steps (callRec ρ s c).log ≤ C01.workBound (callRec ρ s c).events.length s.machines.length := by
+  show C01.steps (triggerEvents ρ c.1 c.2 (resetLog s)).log.reverse ≤ C01.workBound c.1.length s.machines.length
+  rw [steps_eq]
+  have h := steps_triggerEvents ρ c.1 c.2 (resetLog s)
+  have h0 : stepsOf (resetLog s) = 0 := rfl
+  have hl : (resetLog s).rt.length = s.machines.length := hI.rtLen
+  rw [h0, hl] at h
+  unfold stepsOf at h
+  unfold C01.workBound
+  have h3 : 3 * (s.machines.length + 1) * (c.1.length + 1) ≤ 6 * (c.1.length + 1) * (s.machines.length + 1) := by
+    have : 3 * (s.machines.length + 1) * (c.1.length + 1) = 3 * ((c.1.length + 1) * (s.machines.length + 1)) := by
+      rw [Nat.mul_assoc, Nat.mul_comm (s.machines.length + 1)]
+    rw [this, Nat.mul_assoc]
+    exact Nat.mul_le_mul_right _ (by decide)
+  omega
+
+/-- the walk of `C01.monitor` over the model's call records ends with `none` exactly when no record
+    reports a fault -/
+theorem c01_go_iff (t : FwTrace) (h : List Call) : ∀ (i : Nat) (seen : List CallRec) (s : Fw σ),
+    s.machines = t.machines → Inv04 s →
+    (C01.monitor.go t i seen (callRecs ρ s h) = none ↔ ∀ r ∈ callRecs ρ s h, r.res = .ok) := by
+  induction h with
+  | nil => intro i seen s _ _; simp [callRecs, c01_go_nil]
+  | cons c h ih =>
+    intro i seen s hm hI
+    rw [callRecs, c01_go_cons]
+    have hrun := triggerEvents_run ρ c.1 c.2 (resetLog s)
+    have hI' : Inv04 (triggerEvents ρ c.1 c.2 (resetLog s)) := (inv04_resetLog hI).run hrun
+    have hm' : (triggerEvents ρ c.1 c.2 (resetLog s)).machines = t.machines := (machines_run hrun).trans hm
+    cases hf : (triggerEvents ρ c.1 c.2 (resetLog s)).fault with
+    | none =>
+      have hres : (callRec ρ s c).res = .ok := (resOf_ok _).2 hf
+      rw [c01Step_ok t i seen _ _ hres (by rw [← hm]; exact work_call ρ s hI c), ih (i + 1) _ _ hm' hI']
+      simp [hres]
+    | some f =>
+      have hres : (callRec ρ s c).res = resOf (some f) := by show resOf _ = _; rw [hf]
+      constructor
+      · intro h0; exact absurd h0 (c01Step_fault t i seen _ _ f hres)
+      · intro h0
+        have := h0 _ (List.mem_cons_self)
+        rw [hres] at this
+        cases f <;> simp [resOf] at this
+
+/-- **`C01.monitor` on the model's own trace**: it returns `none` exactly when neither the
+    construction nor any call of the trace reports a fault (the work bound is never the reason for a
+    report: every call of every machine set meets it) -/
+theorem c01_monitor_iff (ms : List Machine) (fp fb : F64) (t0 : Int) (rng : σ) (h : List Call) :
+    C01.monitor (modelTrace ρ ms fp fb t0 rng h) = none ↔
+      (modelTrace ρ ms fp fb t0 rng h).newRes = .ok ∧ ∀ r ∈ (modelTrace ρ ms fp fb t0 rng h).calls, r.res = .ok := by
+  have hgo := c01_go_iff ρ (modelTrace ρ ms fp fb t0 rng h) h 1 [] (Fw.init ρ ms fp fb t0 rng)
+    (machines_run (init_run ρ ms fp fb t0 rng)) (Inv04.init ρ ms fp fb t0 rng)
+  unfold C01.monitor
+  cases hf : (Fw.init ρ ms fp fb t0 rng).fault with
+  | none =>
+    have hnew : (modelTrace ρ ms fp fb t0 rng h).newRes = .ok := by show resOf _ = _; rw [hf]; rfl
+    rw [hnew]
+    simp only [bne_self_eq_false, Bool.false_and, Bool.false_eq_true, if_false, true_and]
+    exact hgo
+  | some f =>
+    have hnew : (modelTrace ρ ms fp fb t0 rng h).newRes = resOf (some f) := by show resOf _ = _; rw [hf]
+    rw [hnew]
+    cases f <;> simp [resOf]
+
+/-- along a history whose clock values stay in a window of width `B` with room for the number of
+    calls, no call record of the model reports a fault (validated machines): the invariants of
+    `C01_no_crash` and `C01_total` do not mention the ghost log, so they survive its reset -/
+theorem callRecs_ok {lo : Int} {B : Nat} (h : List Call) : ∀ (c : Nat) (s : Fw σ), Valid s → SigOK s → Good lo B c s →
+    s.fault = none → (c + h.length) * B + B ≤ durMax → (∀ cl ∈ h, lo ≤ cl.2 ∧ cl.2 ≤ lo + B) →
+    ∀ r ∈ callRecs ρ s h, r.res = .ok := by
+  induction h with
+  | nil => intro c s _ _ _ _ _ _ r hr; simp [callRecs] at hr
+  | cons cl h ih =>
+    intro c s hV hS hG hf hg ht r hr
+    have hV0 : Valid (resetLog s) := ⟨hV.lenRt, hV.lenAct, hV.ok, hV.cur⟩
+    have hS0 : SigOK (resetLog s) := fun x hx => hS x hx
+    have hG0 : Good lo B c (resetLog s) := ⟨⟨hG.1.nowLo, hG.1.nowHi, hG.1.stLo, hG.1.phi, hG.1.le⟩, hG.2⟩
+    obtain ⟨hV1, hS1, hN1, _⟩ := okS_triggerEvents ρ cl.1 cl.2 (resetLog s) hV0 hS0
+    have hmono : (c + 1) * B + B ≤ durMax := by
+      have : (c + 1) * B ≤ (c + (h.length + 1)) * B := Nat.mul_le_mul_right B (by omega)
+      simp only [List.length_cons] at hg
+      omega
+    have hG1 := good_triggerEvents ρ hmono cl.1 cl.2 (ht cl (by simp)) (resetLog s) hG0
+    have hf1 : (triggerEvents ρ cl.1 cl.2 (resetLog s)).fault = none := by
+      rcases hN1 with h1 | ⟨_, h1⟩
+      · rw [h1]; exact hf
+      · exact absurd h1 hG1.2
+    rw [callRecs, List.mem_cons] at hr
+    rcases hr with rfl | hr
+    · exact (resOf_ok _).2 hf1
+    · refine ih (c + 1) _ hV1 hS1 hG1 hf1 ?_ (fun x hx => ht x (by simp [hx])) r hr
+      simp only [List.length_cons] at hg
+      rw [show c + 1 + h.length = c + (h.length + 1) by omega]
+      exact hg
+
+/-- **`C01.monitor` accepts the model's own trace** under the hypotheses of `C01_total`: machines of
+    the validated shape, start time and call times in a window `[lo, lo + B]` (not necessarily
+    monotone) with `(calls + 1) * B ≤ Duration::MAX` -/
+theorem c01_monitor_model (ms : List Machine) (hok : ∀ m ∈ ms, MachineOK m) (fp fb : F64) (t0 : Int) (rng : σ)
+    (h : List Call) (lo : Int) (B : Nat) (ht0 : lo ≤ t0 ∧ t0 ≤ lo + B)
+    (ht : ∀ cl ∈ h, lo ≤ cl.2 ∧ cl.2 ≤ lo + B) (hg : (h.length + 1) * B ≤ durMax) :
+    C01.monitor (modelTrace ρ ms fp fb t0 rng h) = none := by
+  have hV0 := valid_init0 ms fp fb t0 rng hok
+  have hS0 : SigOK (Fw.init0 ms fp fb t0 rng) := by intro x hx; simp [Fw.init0] at hx
+  obtain ⟨hV1, hS1, hN1, _⟩ := okS_init ρ ms fp fb t0 rng hV0 hS0
+  have hG1 : Good lo B 0 (Fw.init ρ ms fp fb t0 rng) := good_init ρ ms fp fb t0 rng ht0
+  have hf1 : (Fw.init ρ ms fp fb t0 rng).fault = none := by
+    rcases hN1 with h1 | ⟨_, h1⟩
+    · rw [h1]; rfl
+    · exact absurd h1 hG1.2
+  rw [c01_monitor_iff]
+  refine ⟨(resOf_ok _).2 hf1, ?_⟩
+  refine callRecs_ok ρ h 0 _ hV1 hS1 hG1 hf1 ?_ ht
+  rw [Nat.zero_add]; rw [Nat.add_mul, Nat.one_mul] at hg; exact hg
+
 end MA
 end Mb
